@@ -4,9 +4,12 @@
 // Every goroutine g has a fixed plan of operations (derived from the seed): module loads and
 // export / upsert / Find with query parameters / Constrain / JSON and XML write / schema dump, on
 // its OWN data tree and browser, through compiled modules SHARED by all goroutines.
-//   phase 1 (reference): each plan is run alone, one after the other, on one set of modules;
-//   phase 2: a fresh set of modules is compiled (so that nothing is warmed up) and all plans run
-//            concurrently behind a start barrier.
+//
+//	phase 1: a set of modules is compiled and all plans run concurrently behind a start barrier
+//	         (first, so that nothing - module-level or package-level - has been warmed up);
+//	phase 2 (reference): a fresh set of modules is compiled and each plan is run alone, one after
+//	         the other.
+//
 // stdout: JSON with, per goroutine and operation, a 63-bit digest of the result in both phases.
 // stderr: the race detector's reports (GORACE=halt_on_error=0), parsed by the harness.
 package main
@@ -357,12 +360,12 @@ func main() {
 		plans[g] = makePlan(rg, g, *iters)
 	}
 	type result struct {
-		Seq    [][]uint64 `json:"seq"`
-		Conc   [][]uint64 `json:"conc"`
-		Plans  [][]op     `json:"plans"`
-		Texts  [][]string `json:"texts,omitempty"`
-		CTexts [][]string `json:"ctexts,omitempty"`
-		Err    string     `json:"err,omitempty"`
+		Seq    [][]uint64     `json:"seq"`
+		Conc   [][]uint64     `json:"conc"`
+		Plans  [][]op         `json:"plans"`
+		Texts  [][]string     `json:"texts,omitempty"`
+		CTexts [][]string     `json:"ctexts,omitempty"`
+		Err    string         `json:"err,omitempty"`
 		Kinds  map[string]int `json:"kinds"`
 	}
 	res := result{Plans: plans, Kinds: map[string]int{}}
@@ -376,19 +379,8 @@ func main() {
 		os.Stdout.Write(b)
 		os.Stdout.WriteString("\n")
 	}
-	// phase 1: every plan alone
-	ms1, err := loadMods()
-	if err != nil {
-		res.Err = err.Error()
-		emit()
-		os.Exit(0)
-	}
-	res.Seq = make([][]uint64, *G)
-	res.Texts = make([][]string, *G)
-	for g := 0; g < *G; g++ {
-		res.Seq[g], res.Texts[g] = runPlan(ms1, g, initials[g], plans[g], *verbose)
-	}
-	// phase 2: fresh modules, all plans concurrently
+	// phase 1: all plans concurrently, first, so that no lazily initialised state (module-level or
+	// package-level) has been warmed up by a sequential run
 	ms2, err := loadMods()
 	if err != nil {
 		res.Err = err.Error()
@@ -409,6 +401,18 @@ func main() {
 	}
 	close(start)
 	wg.Wait()
+	// phase 2 (reference): fresh modules, every plan alone, one after the other
+	ms1, err := loadMods()
+	if err != nil {
+		res.Err = err.Error()
+		emit()
+		os.Exit(0)
+	}
+	res.Seq = make([][]uint64, *G)
+	res.Texts = make([][]string, *G)
+	for g := 0; g < *G; g++ {
+		res.Seq[g], res.Texts[g] = runPlan(ms1, g, initials[g], plans[g], *verbose)
+	}
 	if !*verbose {
 		res.Texts, res.CTexts = nil, nil
 	}
